@@ -26,11 +26,21 @@ class MainResult(object):
         self.stdout = ''
         self.stderr = ''
         self.compiled = False  # the configuration was loaded and compiled (runs exist)
+        self.runs = None       # canonical description of the compiled runs
 
     def status(self):
         if self.crash:
             return 'crash:' + self.crash[0]
         return {0: 'ok', 1: 'failed', 2: 'aborted', 3: 'ui_error', 4: 'thread_exc'}.get(self.exit, 'exit%s' % self.exit)
+
+
+def describe_run(r):
+    d = r.benchmark.run_details
+    return repr((r.benchmark.suite.executor.name, r.benchmark.suite.name, r.benchmark.name, r.cores, r.input_size,
+                 r.var_value, r.tag, r.machine, d.invocations, d.iterations, d.warmup, d.min_iteration_time,
+                 d.max_invocation_time, d.retries_after_failure, d.execute_exclusively, d.ignore_timeouts,
+                 sorted((d.env or {}).items(), key=repr), r.benchmark.extra_args, r.benchmark.command,
+                 r.benchmark.suite.command, r.benchmark.suite.location, r.benchmark.suite.executor.path))
 
 
 def run_main(workdir, argv):
@@ -43,6 +53,10 @@ def run_main(workdir, argv):
 
     def wrapped(self, *a, **kw):
         res.compiled = True
+        try:
+            res.runs = sorted(describe_run(r) for r in a[0])
+        except Exception as e:  # a description problem must not look like a ReBench failure
+            res.runs = ['<not describable: %s>' % type(e).__name__]
         return orig(self, *a, **kw)
     out, err = io.StringIO(), io.StringIO()
     os.chdir(workdir)
